@@ -717,6 +717,9 @@ Proof.
     split; [constructor; simpl; apply I|]. intros m Hm. split; [exact Hm|]. unfold slack. simpl. lia.
   - discriminate.
   - discriminate.
+  - discriminate.
+  - discriminate.
+  - discriminate.
 Qed.
 
 (** other modules' transactions leave the escrow alone: no tokenfactory admin operation and no bank send changes any
